@@ -433,6 +433,20 @@ func TranslatePathsD(paths PathsD, dx, dy float64) PathsD {
 }
 
 func TrimCollinear64(path Path64, isOpen bool) Path64 {
+	// removing a vertex can make one of its neighbours collinear with its
+	// new neighbours, so repeat the pass until nothing more is removed
+	result := trimCollinearPass(path, isOpen)
+	for len(result) > 2 {
+		next := trimCollinearPass(result, isOpen)
+		if len(next) == len(result) {
+			break
+		}
+		result = next
+	}
+	return result
+}
+
+func trimCollinearPass(path Path64, isOpen bool) Path64 {
 	l := len(path)
 	i := 0
 
@@ -446,7 +460,7 @@ func TrimCollinear64(path Path64, isOpen bool) Path64 {
 	}
 
 	if l-i < 3 {
-		if !isOpen || l < 2 || path[0] == path[1] {
+		if !isOpen || l < 2 {
 			return Path64{}
 		}
 		return path
